@@ -7,7 +7,19 @@
     sequences the interpreter on the regenerated bodies produces exactly the
     outputs of the model's step functions and stays in a related state (never
     stuck).  Here: the three results side by side, and the property theorems of
-    Props/C19.v transferred to the outputs of the regenerated code. *)
+    Props/C19.v transferred to the outputs of the regenerated code.
+
+    HONEST LABEL.  merge_aiters and agen_with_wait: "PIN + SIMULATION OF THE PINNED TERM".  TieMerge.v / TieAgen.v
+    contain hand-copied program points ([m_body], [g_body] and their sub-terms); [merge_body_shape] /
+    [agen_body_shape] pin the regenerated bodies to them by [reflexivity], and the simulation is proved for the
+    pinned term.  So ANY change of the AST of these two functions -- also a behaviour-preserving one -- breaks the
+    obligation (the check then reports a broken tie, and `no-failing-input-found` if the behaviour is unchanged);
+    what the pin buys over a text pin is that the pinned term has a proved meaning.  to_aiter is different: its
+    lemmas are symbolic executions of the regenerated [to_aiter_methods] themselves and survive rewrites that
+    keep the behaviour under the semantics of Interp.v.
+    Scope (not covered by any label of Model.v): sources that raise something else than StopAsyncIteration,
+    cancelled awaited tasks, athrow().  Early stop of the consumer (aclose / cancellation) is covered on the
+    machine only, by [merge_close_loss] / [agen_close_loss]. *)
 From NL Require Export Aio.Model Aio.Syntax Aio.Interp Gen.AioFuns.
 From NL Require Export Aio.Merge Aio.Agen Aio.ToAiter.
 From NL Require Export Aio.TieMerge Aio.TieAgen Aio.TieToAiter.
@@ -65,3 +77,12 @@ Proof. apply to_aiter_tie. Qed.
 Corollary tie_to_aiter_sequential thread items k :
   delivered (itouts thread items (seq_labels thread k)) = map (res_at items) (seq 0 k).
 Proof. rewrite tie_to_aiter_outputs. apply to_aiter_sequential. Qed.
+
+Corollary tie_aiterable_sequential items k :
+  delivered (snd (itrun_from to_aiter_methods to_aiter_selector (flag_of aiterable_thread) (itinit items)
+                             (seq_labels false k))) = map (res_at items) (seq 0 k).
+Proof. rewrite aiterable_tie. apply to_aiter_sequential. Qed.
+
+Corollary tie_to_aiter_default_sequential items k :
+  delivered (itouts (flag_of None) items (seq_labels true k)) = map (res_at items) (seq 0 k).
+Proof. rewrite to_aiter_default_tie. apply to_aiter_sequential. Qed.
